@@ -9,7 +9,7 @@ cp $wt/demo_$pid.py $d/demo.py 2>/dev/null
 cp $wt/NOTES_$pid.md $d/NOTES.md 2>/dev/null
 echo "== tests with change"; (cd $wt && PYTHONPATH=$wt /venv/bin/python -m pytest -q -p no:cacheprovider tests 2>&1 | tail -1)
 echo "== demo with change"; (cd $wt && PYTHONPATH=$wt /venv/bin/python $wt/demo_$pid.py >/dev/null 2>&1; echo "exit $?")
-(cd $wt && git stash -q -- qstrader)
+(cd $wt && git apply -R $d/patch.diff)
 echo "== demo without change"; (cd $wt && PYTHONPATH=$wt /venv/bin/python $wt/demo_$pid.py >/dev/null 2>&1; echo "exit $?")
-(cd $wt && git stash pop -q)
+(cd $wt && git apply $d/patch.diff)
 for c in "$@"; do echo "== check $c on the changed tree"; (cd /verif && VERIF_REPO=$wt ./check $c 2>&1 | grep -E "VIOLATION|HARNESS|tier=" | cut -c1-260); done
